@@ -1,4 +1,5 @@
 import GateModel.C04.Exec
+import GateModel.C04.NumBounds
 /-
 C04 driver.  Case lines (`<ctx>` = `<type> <protocol> <direction> <registry> <packet-id>`):
   class <type>            model: full | opaque | unmodelled   (classification table, compared with the harness')
@@ -9,6 +10,8 @@ C04 driver.  Case lines (`<ctx>` = `<type> <protocol> <direction> <registry> <pa
                           verdict: for a well-formed value the implementation must give the value back, leave
                           no bytes and re-encode identically
   rtx <ctx> <val>         like `rt` for very large values: the model side is given by theorem `packet_roundtrip`
+  nb <kind> <min> <max>   the brigadier number-bounds property codec (f32/f64 as bit patterns, i32, i64): model bytes and
+                          decoded bounds; verdict: the implementation's decoded bounds equal the ORIGINAL bounds
   gort <ctx>              no model (all registered types, also those without a schema): the Go-side
                           encode→decode→re-encode→decode check; verdict on the implementation's summary
 -/
@@ -21,8 +24,30 @@ def step (c : Case) : String × String :=
   | "gort" =>
     match parseCtx c.args with
     | some (name, _, _) =>
-      (c.impl, if c.impl = "ok left=0 re=1 eq=1" then "ok" else "viol:go-roundtrip-" ++ name)
+      -- `orig=1`: (types whose Go values are compared directly) the decoded value equals the ORIGINAL value
+      (c.impl, if c.impl = "ok left=0 re=1 eq=1" ∨ c.impl = "ok left=0 re=1 eq=1 orig=1" then "ok"
+               else "viol:go-roundtrip-" ++ name)
     | none => ("bad-op", "-")
+  | "nbconst" =>
+    match c.args with
+    | [kind, lo, hi] =>
+      match numKind kind with
+      | some k => (if k.lo.show = "i" ++ lo ∧ k.hi.show = "i" ++ hi then "ok" else "sentinels-differ", "-")
+      | none => ("bad-op", "-")
+    | _ => ("bad-op", "-")
+  | "nb" =>
+    match c.args with
+    | [kind, mn, mx] =>
+      match numKind kind, mn.toInt?, mx.toInt? with
+      | some k, some a, some b =>
+        let e := nbEncode k (.int a) (.int b)
+        let want := "dec=" ++ toString a ++ "," ++ toString b
+        let model := match nbDecode k e with
+          | .ok ((x, y), _) => "ok " ++ toHex e ++ " dec=" ++ toString x.getInt ++ "," ++ toString y.getInt
+          | .error _ => "ok " ++ toHex e ++ " err-dec"
+        (model, if (c.impl.splitOn " ").getLast? = some want then "ok" else "viol:number-bounds-" ++ kind)
+      | _, _, _ => ("bad-op", "-")
+    | _ => ("bad-op", "-")
   | op =>
     match parseCtx c.args with
     | some (name, ctx, [vs]) =>
